@@ -47,8 +47,8 @@ macro_rules! vio {
     };
 }
 
-fn new_set<K: KeyT>(plan: &Plan) -> SSet<K> {
-    HashSet::with_hasher_in(SimBuildHasher::new(plan.clone()), SimAlloc)
+fn new_set<K: KeyT>(plan: &Plan, si: usize) -> SSet<K> {
+    HashSet::with_hasher_in(SimBuildHasher::new(plan.clone()), SimAlloc::of_slot(si))
 }
 fn it<K: KeyT>(k: &K) -> Item {
     (k.id(), k.serial(), 0, 0)
@@ -113,7 +113,7 @@ fn drive_alg<I: Iterator<Item = Item> + Clone>(mut iter: I, plan: &IterPlan, cap
 
 impl<K: KeyT> SetWorld<K> {
     pub fn new(cfg: Config) -> Self {
-        let slots: Vec<SetSlot<K>> = cfg.plans.iter().map(|p| SetSlot { set: Some(new_set::<K>(p)), model: Vec::new(), plan: p.clone() }).collect();
+        let slots: Vec<SetSlot<K>> = cfg.plans.iter().enumerate().map(|(i, p)| SetSlot { set: Some(new_set::<K>(p, i)), model: Vec::new(), plan: p.clone() }).collect();
         SetWorld { slots, ctx: RunCtx::new(cfg) }
     }
     pub(crate) fn set(&self, si: usize) -> &SSet<K> {
@@ -472,7 +472,7 @@ impl<K: KeyT> SetWorld<K> {
         let out = self.ctx.call(op, move || drop(old));
         let model = std::mem::take(&mut self.slots[si].model);
         let plan = self.slots[si].plan.clone();
-        self.slots[si].set = Some(new_set::<K>(&plan));
+        self.slots[si].set = Some(new_set::<K>(&plan, si));
         match out {
             Out::Ok(()) => {}
             Out::Fault(Class::Drop) => {
@@ -488,12 +488,12 @@ impl<K: KeyT> SetWorld<K> {
         let calls0 = sim().alloc_calls;
         let want = if op.k == Kd::WithCapacity { op.a.max(0) as usize } else { 0 };
         let ns: SSet<K> = match op.k {
-            Kd::WithCapacity => HashSet::with_capacity_and_hasher_in(want, SimBuildHasher::new(plan.clone()), SimAlloc),
+            Kd::WithCapacity => HashSet::with_capacity_and_hasher_in(want, SimBuildHasher::new(plan.clone()), SimAlloc::of_slot(si)),
             Kd::DropSlot => {
                 self.slots[si].plan = Plan::Mixed(0);
                 Default::default()
             }
-            _ => new_set::<K>(&plan),
+            _ => new_set::<K>(&plan, si),
         };
         let calls = sim().alloc_calls - calls0;
         let cap = ns.capacity();
@@ -1318,7 +1318,7 @@ impl<K: KeyT> SetWorld<K> {
         }
         let model = std::mem::take(&mut self.slots[si].model);
         let size0 = self.set(si).allocation_size() as u64;
-        let fresh = new_set::<K>(&self.slots[si].plan.clone());
+        let fresh = new_set::<K>(&self.slots[si].plan.clone(), si);
         let s = self.slots[si].set.replace(fresh).unwrap();
         let mut owned: Vec<K> = Vec::new();
         let ow = &mut owned;
@@ -1394,7 +1394,7 @@ impl<K: KeyT> SetWorld<K> {
         let created0 = sim().created;
         let out = if op.k == Kd::CloneTo {
             let plan = self.slots[ti].plan.clone();
-            let old = self.slots[ti].set.replace(new_set::<K>(&plan)).unwrap();
+            let old = self.slots[ti].set.replace(new_set::<K>(&plan, ti)).unwrap();
             drop(old);
             self.slots[ti].model.clear();
             fc.before.clear();
